@@ -74,15 +74,17 @@ structure LIObs where
   notify : List Bool
   pending : List (Nat × AEReq)
   hbPending : List Nat
+  lc : List Nat := []      -- slow-reader cases: what LeaderCh held when each notification was taken
 
 def pLIObs : P LIObs := do
   let o ← pIObs
   kw "U"; let us ← many pOutcome
   let d ← pDump
   kw "N"; let ns ← many pBool
+  kw "LC"; let lc ← many nat
   kw "Q"; let q ← many pPending
   kw "B"; let hb ← many nat
-  pure ⟨o, us, d, ns, q, hb⟩
+  pure ⟨o, us, d, ns, q, hb, lc⟩
 
 def sortOutcomes (l : List (Nat × Outcome)) : List (Nat × Outcome) := l.mergeSort (fun a b => a.1 ≤ b.1)
 
@@ -114,7 +116,7 @@ def lWalk : Nat → LWorld → List LEvent → List LIObs → Option String
       | none => lWalk (k + 1) r.1 es os
   | k, _, _, _ => some s!"malformed@{k}"
 
-def LIObs.lview (o : LIObs) : LS.LView := ⟨o.o.view, sortOutcomes o.outcomes, o.dump, o.notify, o.pending, o.hbPending⟩
+def LIObs.lview (o : LIObs) : LS.LView := ⟨o.o.view, sortOutcomes o.outcomes, o.dump, o.notify, o.pending, o.hbPending, o.lc⟩
 
 def mkLSteps : List LEvent → List LIObs → List LS.LStep
   | e :: es, a :: b :: os => ⟨e, a.lview, b.lview⟩ :: mkLSteps es (b :: os)
@@ -138,7 +140,7 @@ def lmonFor : String → List LMonitor
               fun st => at2 "leader" (LS.requestsSpeakForLedTerm st none 0)]
   | "C09" => [LS.verifyFresh]
   | "C17" => [LS.nothingStranded, fun st => at2 "follower" (LS.followerRules st 0)]
-  | "C18" => [LS.notifyFaithful, fun st => at2 "follower" (LS.followerRules st 0)]
+  | "C18" => [LS.notifyFaithful, LS.leaderChFirst, fun st => at2 "follower" (LS.followerRules st 0)]
   | "C04" => [fun st => at2 "leader" (LS.requestsFromLog st 0), fun st => at2 "leader" (LS.requestsSpeakForLedTerm st none 0)]
   | "C12" => [fun st => at2 "leader" (LS.requestsFromLog st 0), fun st => at2 "leader" (LS.requestsToCurrentAddress st 0),
               fun st => at2 "follower" (LS.followerRules st 0)]
@@ -146,7 +148,7 @@ def lmonFor : String → List LMonitor
   | _ => [fun st => at2 "commit" (LS.commitRule st 0), fun st => at2 "membership" (LS.oneChangeAtATime st false 0),
           fun st => at2 "membership" (LS.stalePrevRefused st 0), fun st => at2 "membership" (LS.latestConfigInLog st 0),
           fun st => at2 "client" (LS.ackExact (lp st) 0 (lp st)), fun st => LS.ackOrder (lp st), fun st => LS.fsmInOrder (lp st), LS.verifyFresh, LS.nothingStranded,
-          LS.notifyFaithful, fun st => at2 "leader" (LS.requestsFromLog st 0), fun st => at2 "leader" (LS.requestsSpeakForLedTerm st none 0),
+          LS.notifyFaithful, LS.leaderChFirst, fun st => at2 "leader" (LS.requestsFromLog st 0), fun st => at2 "leader" (LS.requestsSpeakForLedTerm st none 0),
           fun st => at2 "leader" (LS.requestsToCurrentAddress st 0), fun st => at2 "follower" (LS.followerRules st 0),
           fun st => at2 "lease" (LS.leaseRule st 0 [] 0)]
 
@@ -155,7 +157,7 @@ def lfirstSome (st : List LS.LStep) : List LMonitor → Option String
   | m :: ms => match m st with | some r => some r | none => lfirstSome st ms
 
 /-- the boot observation carries no leader part -/
-def bootL (o : IObs) : LIObs := ⟨o, [], none, [], [], []⟩
+def bootL (o : IObs) : LIObs := ⟨o, [], none, [], [], [], []⟩
 
 def lJudgeWith (monitors : List LMonitor) (caseLine implLine : String) : String :=
   match runP pLCase caseLine, runP (do let o0 ← pIObs; let os ← many pLIObs; pure (o0, os)) implLine with
